@@ -848,6 +848,8 @@ SET_encode_xer(const asn_TYPE_descriptor_t *td, const void *sptr, int ilevel,
 	int xcan = (flags & XER_F_CANONICAL);
 	const asn_TYPE_tag2member_t *t2m = specs->tag2el_cxer;
 	size_t t2m_count = specs->tag2el_cxer_count;
+	asn_TYPE_descriptor_t *tmp_def_val_td = 0;
+	void *tmp_def_val = 0;
 	size_t edx;
 
 	if(!sptr)
@@ -872,10 +874,21 @@ SET_encode_xer(const asn_TYPE_descriptor_t *td, const void *sptr, int ilevel,
             memb_ptr =
                 *(const void *const *)((const char *)sptr + elm->memb_offset);
             if(!memb_ptr) {
-				if(elm->optional)
+				assert(tmp_def_val == 0);
+				if(elm->default_value_set && !xcan) {
+					/* Same as SEQUENCE_encode_xer() */
+					if(elm->default_value_set(&tmp_def_val)) {
+						ASN__ENCODE_FAILED;
+					} else {
+						memb_ptr = tmp_def_val;
+						tmp_def_val_td = elm->type;
+					}
+				} else if(elm->optional) {
 					continue;
-				/* Mandatory element missing */
-				ASN__ENCODE_FAILED;
+				} else {
+					/* Mandatory element missing */
+					ASN__ENCODE_FAILED;
+				}
 			}
 		} else {
             memb_ptr = (const void *)((const char *)sptr + elm->memb_offset);
@@ -893,6 +906,10 @@ SET_encode_xer(const asn_TYPE_descriptor_t *td, const void *sptr, int ilevel,
 		/* Print the member itself */
 		tmper = elm->type->op->xer_encoder(elm->type, memb_ptr,
 				ilevel + 1, flags, cb, app_key);
+		if(tmp_def_val) {
+			ASN_STRUCT_FREE(*tmp_def_val_td, tmp_def_val);
+			tmp_def_val = 0;
+		}
 		if(tmper.encoded == -1) return tmper;
 		er.encoded += tmper.encoded;
 
@@ -903,6 +920,7 @@ SET_encode_xer(const asn_TYPE_descriptor_t *td, const void *sptr, int ilevel,
 
 	ASN__ENCODED_OK(er);
 cb_failed:
+	if(tmp_def_val) ASN_STRUCT_FREE(*tmp_def_val_td, tmp_def_val);
 	ASN__ENCODE_FAILED;
 }
 
@@ -1054,8 +1072,18 @@ SET_compare(const asn_TYPE_descriptor_t *td, const void *aptr,
                 *(const void *const *)((const char *)bptr + elm->memb_offset);
             if(!amemb) {
                 if(!bmemb) continue;
+                if(elm->default_value_cmp
+                   && elm->default_value_cmp(bmemb) == 0) {
+                    /* A is absent, but B is present and equal to DEFAULT */
+                    continue;
+                }
                 return -1;
             } else if(!bmemb) {
+                if(elm->default_value_cmp
+                   && elm->default_value_cmp(amemb) == 0) {
+                    /* B is absent, but A is present and equal to DEFAULT */
+                    continue;
+                }
                 return 1;
             }
 		} else {
